@@ -672,6 +672,11 @@ def run(chk: Check, repo: Repo) -> None:
     for q in ("UDPTransport.UDPTransportFactory.datagram_received",):
         if repo.has_func(UDP, q):
             entries.append(repo.func(UDP, q))
+    # what a transport schedules on the loop itself (`call_later`) is called by the loop like a datagram callback
+    timer_cb = repo.func("xknx.io.ip_secure", "SecureSequenceTimer._notify_timer_expired")
+    scheduled = [c for f_ in repo.all_functions() if f_.module.name == "xknx.io.ip_secure" for c in calls(f_.node) if call_name(c).endswith("call_later") and any(ast.unparse(a_) == "self._notify_timer_expired" for a_ in c.args)]
+    chk.ob("loop-callbacks-are-entries", timer_cb.site(), bool(scheduled), f"SecureSequenceTimer._notify_timer_expired is handed to call_later at {len(scheduled)} site(s) and analysed as an entry", key="entries|notify-timer")
+    entries.append(timer_cb)
     chk.floor("transport receive entries", len(entries), 4)
     base_reviewed = transport_reviewed(repo, mr)
     for e in entries:
